@@ -17,6 +17,10 @@ var commonAssumptions = []string{
 }
 
 var propMeta = map[string]PropMeta{
+	"C05": {
+		NotCovered: "What a successful write to the stream means below sseutil.WriteEvent (net/http buffering, the peer actually reading it); ordering between concurrent senders beyond the per-stream write lock (C09); the legacy SSE server's notification queue and the stdio server (single session) are not under contract for routing; that the filter callback is side-effect free is assumed.",
+		Assumptions: append([]string{"ghost instrumentation: sendattempts counts calls of httpServerHandler.sendNotification, sendoks those that returned nil; filtercalls/selected count the filter callback's calls and true results", "pendingRequestKey is injective in the session id as long as session ids contain no NUL byte (they are UUID strings)", "session.GetID() is stable for a session"}, commonAssumptions...),
+	},
 	"C10": {
 		NotCovered: "Pairwise distinctness over a whole stream is concluded outside the verifier from the proved per-call facts (one generator per stream, fresh id per event, strictly increasing private counter, id text determines the counter); the GET stream's single generator is by construction (one responder per connection) and not under contract. NotificationParams.MarshalJSON/UnmarshalJSON and encoding/json are not under contract, so 'parameters intact' is proved up to the value handed to json.Marshal and from the value json.Unmarshal produced. uint64 counter wrap-around is ignored.",
 		Assumptions: append([]string{"fmt.Sprintf(\"evt-%d-%d\", ts, n) prints n after the last '-' (idctr)", "the notification handler callback is counted once per invocation (ghost instrumentation) and (*bufio.Reader).ReadString delivers the stream's lines in order"}, commonAssumptions...),
